@@ -228,11 +228,21 @@ def is_inverse(t):
     return _canon_name(t[1]).endswith('::inverse')
 
 
+def is_div(t):
+    if not (isinstance(t, tuple) and t and t[0] == 'call'):
+        return False
+    n = _canon_name(t[1])
+    return n.endswith('::div') or n == 'div'
+
+
 def word(t, subst=None):
     """Flatten a product of transforms into [(atom, +1|-1)], cancelling x*x^-1.  subst: atom -> word."""
     t = strip(t)
     if is_mul(t) and len(t) == 4:
         w = word(t[2], subst) + word(t[3], subst)
+    elif is_div(t) and len(t) == 4:
+        # a / b of transforms is a * b^-1 (nalgebra defines isometry division as multiplication by the inverse)
+        w = word(t[2], subst) + [(a, -e) for a, e in reversed(word(t[3], subst))]
     elif is_inverse(t) and len(t) == 3:
         w = [(a, -e) for a, e in reversed(word(t[2], subst))]
     else:
